@@ -89,6 +89,19 @@ Theorem C14_concurrent_eq_serial :
 Proof. exact concurrent_eq_serial. Qed.
 Print Assumptions C14_concurrent_eq_serial.
 
+(* purity over histories: any sequence of calls of the two entry points on one selector leaves
+   the generation's configuration as it was, and every call returns what it returns on a fresh
+   selector, whatever was called before it *)
+Theorem C14_history_pure :
+  forall ops cfg, fst (hrun cfg ops) = cfg /\ snd (hrun cfg ops) = map (hresult cfg) ops.
+Proof. exact hrun_pure. Qed.
+Print Assumptions C14_history_pure.
+
+Theorem C14_history_independent :
+  forall pre post o cfg, nth_error (snd (hrun cfg (pre ++ o :: post))) (length pre) = Some (hresult cfg o).
+Proof. exact history_independent. Qed.
+Print Assumptions C14_history_independent.
+
 (* run on its own, the code that used the shared generator (shared = true, before
    /repo 77e5dfb) and the current code (shared = false) return the same value,
    whatever state the generators are in: the fix preserves what clients compute *)
